@@ -538,6 +538,81 @@ def state_graph_histories(max_adds, nm=3, np_=3, names=(b"a", b"")):
         frontier = nxt
 
 
+def leak_history(rng):
+    """Rejected adds of every kind (name taken, object taken under another name, self,
+    ancestor, both taken but not with each other), each followed by the enumeration of the
+    model and then by adds that the property admits and that reuse the name or the object of
+    the rejected call: a rejected add must leave nothing behind."""
+    nm, np_ = 4, 4
+    names = rng.sample(NAME_POOL, 4)
+    sp = Spec(); sp.reset(nm, np_)
+    out = ["reset %d %d" % (nm, np_)]
+
+    def emit(line):
+        exp, _ = sp.expect(line, "")
+        out.append(line)
+        return exp
+    for _ in range(rng.randint(6, 14)):
+        m = rng.randrange(nm)
+        kind = rng.choice(["addp", "addm"])
+        line = "%s %d %s %d" % (kind, m, enc(rng.choice(names)), rng.randrange(np_ if kind == "addp" else nm))
+        exp = emit(line)
+        if exp != "err":
+            continue
+        w = line.split()
+        name, obj = w[2], int(w[3])
+        emit("all %d" % m)
+        # the name of the rejected call with some other object, the object of the rejected call under another name
+        for _ in range(rng.randint(1, 3)):
+            k2 = rng.choice(["addp", "addm"])
+            if rng.random() < 0.5:
+                emit("%s %d %s %d" % (k2, m, name, rng.randrange(np_ if k2 == "addp" else nm)))
+            else:
+                emit("%s %d %s %d" % (kind, rng.randrange(nm), enc(rng.choice(names)), obj))
+            emit("all %d" % m)
+    out += ["all %d" % mm for mm in range(nm)]
+    return out
+
+
+def run_rejected_adds(chk, n):
+    """Implementation leg used by C10: random and `leak` histories on the real
+    Model registry, judged against the dictionary specification (no Lean model
+    involved); reports the first departure of each class, shrunk."""
+    exe = build.build_harness(HARNESS)
+    hs = [leak_history(chk.rng) for _ in range(n)] + [random_history(chk.rng, maxops=25) for _ in range(n // 2)]
+    flat, starts = [], []
+    for h in hs:
+        starts.append(len(flat)); flat += h
+    impl, _ = vrun.run_impl(exe, flat, stateful=True, timeout=600)
+    chk.traces += len(hs)
+    found = {}
+    for h, a in zip(hs, starts):
+        im = impl[a:a + len(h)]
+        for l, o in zip(h, im):
+            chk.count(l, o, o == "err" or l.startswith("all"))
+        j = judge_history(h, im)
+        if j and j[2] not in found:
+            found[j[2]] = (h[: j[0] + 1], j[1], im[j[0]])
+
+    def still_fails(cls):
+        def f(lines):
+            out, _ = vrun.run_impl(exe, lines, stateful=True, timeout=60)
+            j = judge_history(lines, out)
+            return bool(j and j[2] == cls)
+        return f
+    for cls, (lines, exp, im) in sorted(found.items()):
+        small = vcheck.shrink(lines, still_fails(cls))
+        out, _ = vrun.run_impl(exe, small, stateful=True, timeout=60)
+        j = judge_history(small, out)
+        exp2, im2 = (j[1], out[j[0]]) if j else (exp, im)
+        chk.report("%s:%s" % (cls, ";".join(small)),
+                   "after %d operation(s) on Model registries (some of them rejected), `%s`: the implementation answers `%s`, the registry "
+                   "specification says `%s` — a rejected call left something behind or an inadmissible call was accepted" % (
+                       len(small) - 1, small[-1], im2, exp2),
+                   {"family": FAMILY, "harness": HARNESS, "stateful": True, "lines": small, "model_family": None,
+                    "expected_spec": exp2, "observed_impl": im2, "class": cls})
+
+
 # --------------------------------------------------------------------- running
 
 class Runner:
